@@ -29,6 +29,9 @@ def make_batch(spec):
         ys = [torch.tensor(float(c)) for c in cls]
     else:
         ys = [torch.nn.functional.one_hot(torch.tensor(c), num_classes=K).float() for c in cls]
+    # the dataset may hand out its one-hot labels in another dtype (int64 straight from one_hot, float64): the reference keeps
+    # float32 copies, the samples carry the configured dtype
+    ldt = {"float32": torch.float32, "int64": torch.int64, "float64": torch.float64}[spec.get("label_dtype", "float32")]
     samples = []
     for k in range(B):
         items = []
@@ -36,7 +39,7 @@ def make_batch(spec):
             if it == "x":
                 items.append(xs[k].clone())
             elif it == "class":
-                items.append(ys[k].clone())
+                items.append(ys[k].clone().to(ldt) if K > 1 else ys[k].clone())
             elif it == "index":
                 items.append(k)
             else:
@@ -109,7 +112,7 @@ def check(spec):
         raise Violation("layout-changed:single-item-mode", f"single-item mode {mode!r} returned {type(batch).__name__} of length "
                                                           f"{len(batch) if hasattr(batch, '__len__') else '?'} instead of the bare batch")
     items = dict(zip(spec["mode"], batch if len(spec["mode"]) > 1 else (batch,)))
-    if len(spec["mode"]) > 1 and (not isinstance(batch, tuple) or len(batch) != len(spec["mode"])):
+    if len(spec["mode"]) > 1 and (not isinstance(batch, (tuple, list)) or len(batch) != len(spec["mode"])):
         raise Violation("layout-changed", f"{type(batch).__name__} of {len(batch)} for mode {mode}")
     # untouched items and ctx entries
     if "index" in items and items["index"].tolist() != list(range(B)):
@@ -129,6 +132,10 @@ def check(spec):
     if tuple(X.shape) != (B, C, H, W):
         raise Violation("image-shape", str(tuple(X.shape)))
     Y = items.get("class")
+    if Y is not None:
+        if not torch.is_tensor(Y) or tuple(Y.shape) != ((B, K) if K > 1 else (B,)):
+            raise Violation("label-shape", f"{tuple(getattr(Y, 'shape', ()))} for batch {B}, {'one-hot over ' + str(K) if K > 1 else 'binary scalar'} labels")
+        Y = Y.double()
     cands = []
     n_cut = 0
     for i in range(B):
@@ -205,7 +212,8 @@ def spec_s(draw, mae=False):
             "apply_mode": draw(st.sampled_from(["batch", "sample"])), "lamb_mode": draw(st.sampled_from(["batch", "sample"])),
             "shuffle_mode": sm, "mixup_p": draw(st.sampled_from([1.0, 0.0, 0.5, 0.3, 0.8])),
             "mixup_alpha": draw(st.sampled_from([0.1, 0.8, 1.0, 4.0])), "cutmix_alpha": draw(st.sampled_from([0.1, 1.0, 4.0])),
-            "seed": draw(st.integers(0, 2 ** 32 - 1)), "mae": mae}
+            "seed": draw(st.integers(0, 2 ** 32 - 1)), "mae": mae,
+            "label_dtype": draw(st.sampled_from(["float32", "float32", "int64", "float64"]))}
 
 
 FACETS = [
